@@ -5,7 +5,7 @@ import sys
 import time
 import traceback
 
-from .index import Repo, AnalysisError, AnchorMissing, Undecided, norm
+from .index import Repo, AnalysisError, AnchorMissing, Undecided, ModelViolation, norm
 from .fold import Folder
 
 VERIF = os.path.dirname(os.path.dirname(os.path.abspath(__file__)))
@@ -173,6 +173,8 @@ def run_property(prop, rules_module, root, tier, replay=None, quiet=False, write
             ctx.current_rule = rid
             try:
                 fnc(ctx)
+            except ModelViolation as e:
+                ctx.violated(rid, e.site, e.construct, e.why, e.witness)
             except AnalysisError as e:
                 ctx.errors.append("%s: %s: %s" % (rid, type(e).__name__, e))
             except Exception as e:      # internal error inside one rule: never an alarm, the other rules still run
